@@ -1330,7 +1330,10 @@ class _AlwaysSortable(object):
         self.value = value
 
     def sortable_value(self):
-        return (str(type(self)), id(self))
+        # Like pprint._safe_key: by type name, then identity of the key
+        # itself (not of this short-lived wrapper, whose address
+        # differs from call to call).
+        return (str(type(self.value)), id(self.value))
 
     def __lt__(self, other):
         try:
